@@ -10,6 +10,7 @@ that maintenance edits of that kind cannot change a verdict:
   N3  negations are pushed inwards: `not (a or b)` -> `not a and not b`, `not (a and b)` -> `not a or not b`, `not not a` -> `a`,
       `not a == b` -> `a != b`, `not a is None` -> `a is not None`, `not a in b` -> `a not in b` (not applied to `<`/`<=`: NaN, None);
   N4  a statement whose value is a conditional expression becomes an if-statement:  `x = a if c else b`, `x += ...`, `return ...`;
+  N9  `x = []` + `for T in IT: [if C:] x.append(E)`  ->  `x = [E for T in IT if C]` (same for set()/add);
   N8  `a, b = x, y` becomes `a = x; b = y` when no target occurs in a later value (applied after N6);
   N5  (see alpha.py) locals are renamed to the spelling of the reference snapshot when their use-signature identifies them;
   N6  (see inline.py) calls of private helpers that do not exist in the reference snapshot are inlined when they are simple enough.
@@ -132,6 +133,55 @@ class Normalizer(ast.NodeTransformer):
         return node
 
 
+def loops_to_comprehensions(tree):
+    """N9: `x = []` directly followed by `for T in IT: [if C:] x.append(E)` (nothing else in the loop) -> `x = [E for T in IT if C]`.
+    Also `x = set()` + `.add`."""
+    n = [0]
+
+    def rec(stmts):
+        out = []
+        i = 0
+        while i < len(stmts):
+            s = stmts[i]
+            for fld in ('body', 'orelse', 'finalbody'):
+                sub = getattr(s, fld, None)
+                if isinstance(sub, list) and sub and isinstance(sub[0], ast.stmt):
+                    setattr(s, fld, rec(sub))
+            if isinstance(s, ast.Try):
+                for h in s.handlers:
+                    h.body = rec(h.body)
+            nxt = stmts[i + 1] if i + 1 < len(stmts) else None
+            if isinstance(s, ast.Assign) and len(s.targets) == 1 and isinstance(s.targets[0], ast.Name) and isinstance(nxt, ast.For) and not nxt.orelse:
+                x = s.targets[0].id
+                kind = 'list' if isinstance(s.value, ast.List) and not s.value.elts else ('set' if isinstance(s.value, ast.Call) and isinstance(s.value.func, ast.Name) and
+                                                                                         s.value.func.id == 'set' and not s.value.args else None)
+                body = nxt.body
+                cond = None
+                if kind and len(body) == 1 and isinstance(body[0], ast.If) and not body[0].orelse and len(body[0].body) == 1:
+                    cond = body[0].test
+                    body = body[0].body
+                if kind and len(body) == 1 and isinstance(body[0], ast.Expr) and isinstance(body[0].value, ast.Call) and isinstance(body[0].value.func, ast.Attribute) \
+                        and isinstance(body[0].value.func.value, ast.Name) and body[0].value.func.value.id == x \
+                        and body[0].value.func.attr == ('append' if kind == 'list' else 'add') and len(body[0].value.args) == 1 and not body[0].value.keywords:
+                    elt = body[0].value.args[0]
+                    used = {m.id for e in [elt, nxt.iter] + ([cond] if cond is not None else []) for m in ast.walk(e) if isinstance(m, ast.Name)}
+                    if x not in used and not any(isinstance(m, (ast.Yield, ast.YieldFrom, ast.Await)) for m in ast.walk(nxt)):
+                        gen = ast.comprehension(target=nxt.target, iter=nxt.iter, ifs=[cond] if cond is not None else [], is_async=0)
+                        comp = ast.ListComp(elt=elt, generators=[gen]) if kind == 'list' else ast.SetComp(elt=elt, generators=[gen])
+                        out.append(ast.copy_location(ast.Assign(targets=[s.targets[0]], value=ast.copy_location(comp, nxt)), s))
+                        n[0] += 1
+                        i += 2
+                        continue
+            out.append(s)
+            i += 1
+        return out
+    for node in ast.walk(tree):
+        if isinstance(node, (ast.FunctionDef, ast.AsyncFunctionDef)):
+            node.body = rec(node.body)
+    ast.fix_missing_locations(tree)
+    return n[0]
+
+
 def split_tuple_assignments(tree):
     """N8: `a, b = x, y` -> `a = x; b = y` when no target name occurs in a later value (the two forms are then equivalent)"""
     n = [0]
@@ -181,4 +231,5 @@ def normalize(tree):
     n = Normalizer()
     tree = n.visit(tree)
     ast.fix_missing_locations(tree)
+    n.counts['loop_to_comprehension'] = loops_to_comprehensions(tree)
     return tree, n.counts
